@@ -280,3 +280,61 @@ Theorem C20_float_code_within_one : forall (amp off v : Q) res,
       fcode (Q2R amp) (Q2R off) res (Q2R v) = code1 amp off res v).
 Proof. exact fcode_within_one. Qed.
 Print Assumptions C20_float_code_within_one.
+
+(* ---- round 4: THE SAMPLE GRID IN BINARY64.  "Sampling at the times k / sample rate" means, for binary64 numbers: sample k
+        is taken at Model.grid_time rate k = b64 (k / rate), the binary64 number nearest (ties to even) to the EXACT rational
+        k / rate — one rounding.  Model.b64 is an executable function on Q (it runs inside check_corr / check_spec); it is
+        Flocq's round-to-nearest-even: ---- *)
+Require Import QV.C20.ProofsGrid.
+Theorem C20_b64_is_RN : forall q : Q, Q2R (b64 q) = RN (Q2R q).
+Proof. exact b64_is_RN. Qed.
+Print Assumptions C20_b64_is_RN.
+
+Theorem C20_grid_time_is_RN : forall (rate : Q) (k : Z), ~ (rate == 0)%Q -> Q2R (grid_time rate k) = RN (IZR k / Q2R rate).
+Proof. exact grid_time_is_RN. Qed.
+Print Assumptions C20_grid_time_is_RN.
+
+(* binary64 division of representable k and r (one rounding) gives the grid time ... *)
+Theorem C20_grid_division_correctly_rounded : forall (k : Z) (r : Q), ~ (r == 0)%Q -> (Z.abs k <= 2 ^ 53)%Z ->
+  RN (Q2R r) = Q2R r -> RN (RN (IZR k) / RN (Q2R r)) = Q2R (grid_time r k).
+Proof. exact RN_division_is_grid. Qed.
+Print Assumptions C20_grid_division_correctly_rounded.
+
+(* ... while k * (1 / r) (two roundings) need not, even for a representable rate: r = 3, k = 5 (the change of seed C20-5);
+   executable guard of the true statement: nothing — the formula is simply not the specification; non-vacuity: the
+   witness rate IS representable, so C20_grid_division_correctly_rounded applies to it *)
+Theorem C20_grid_reciprocal_refuted :
+  (exists rate k, (b64 rate == rate)%Q /\ (grid_reciprocal rate k < grid_time rate k)%Q)
+  /\ (RN (5 * RN (1 / 3)) < RN (5 / 3))%R.
+Proof. exact (conj grid_reciprocal_refuted RN_reciprocal_refuted). Qed.
+Print Assumptions C20_grid_reciprocal_refuted.
+
+(* get_sample_times before the round-4 repair computed float(k) / float(rate).  Guard: the rate is representable. *)
+Definition guard_C20_rate_representable (rate : Q) : bool := Qeq_bool (b64 rate) rate.
+Theorem C20_grid_old_correct : forall rate k, guard_C20_rate_representable rate = true ->
+  (grid_old rate k == grid_time rate k)%Q.
+Proof. intros rate k H. apply grid_old_correct. apply Qeq_bool_iff. exact H. Qed.
+Print Assumptions C20_grid_old_correct.
+Example guard_C20_rate_representable_nonvacuous :
+  guard_C20_rate_representable 3 = true /\ guard_C20_rate_representable (3 # 2) = true /\ guard_C20_rate_representable (9 # 5) = false.
+Proof. vm_compute. repeat split. Qed.
+(* without the guard the old formula is refuted: 1.8 GS/s, sample 3 is taken one ulp BEFORE 5/3 ns, so a jump placed at
+   5/3 ns shows up one sample late (was a finding of /repo; repaired, see notes) *)
+Theorem C20_grid_old_refuted : exists rate k,
+  guard_C20_rate_representable rate = false /\ (grid_old rate k < grid_time rate k)%Q.
+Proof. exists (9 # 5)%Q, 3%Z. split; vm_compute; reflexivity. Qed.
+Print Assumptions C20_grid_old_refuted.
+
+(* the repaired get_sample_times (k * den exactly, then ONE division by num) is correctly rounded under its guard
+   (numerator < 2^53, n * denominator <= 2^53; otherwise it falls back to the old formula) *)
+Theorem C20_grid_impl_correct : forall rate n k, (0 <= k < n)%Z -> grid_guard rate n = true ->
+  (grid_impl rate n k == grid_time rate k)%Q.
+Proof. exact grid_impl_correct. Qed.
+Print Assumptions C20_grid_impl_correct.
+
+Theorem C20_sample_times_grid : forall rate durs ts lens, sample_times rate durs = ORet (ts, lens) ->
+  let n := fold_right Z.max 0%Z lens in
+  grid_guard rate n = true ->
+  length ts = Z.to_nat n /\ forall k, (k < Z.to_nat n)%nat -> (nth k ts 0%Q == grid_time rate (Z.of_nat k))%Q.
+Proof. exact sample_times_grid. Qed.
+Print Assumptions C20_sample_times_grid.
